@@ -48,6 +48,9 @@ type collection struct {
 	def            client.CollectionDefinition
 	indexes        []CollectionIndex
 	fetcherFactory func() fetcher.Fetcher
+
+	// The transactions that have changed the indexes held in memory and have not finished yet.
+	indexChangingTxns map[uint64]struct{}
 }
 
 // @todo: Move the base Descriptions to an internal API within the db/ package.
